@@ -456,9 +456,16 @@ func ruleElemKeysSorted(c *Ctx, r *Report) {
 		ok := false
 		for _, call := range CallsIn(p.Info(), p.Decl.Body, P("ygot")+".elemToString") {
 			if len(call.Args) == 2 {
-				a, aok := call.Args[0].(*ast.SelectorExpr)
-				b, bok := call.Args[1].(*ast.SelectorExpr)
-				if aok && bok && a.Sel.Name == "Name" && b.Sel.Name == "Key" && sameExpr(p.Info(), a.X, b.X) {
+				// e.Name / e.Key, or the nil-safe getters e.GetName() / e.GetKey().
+				sel := func(e ast.Expr) *ast.SelectorExpr {
+					if cl, isCall := ast.Unparen(e).(*ast.CallExpr); isCall && len(cl.Args) == 0 {
+						e = cl.Fun
+					}
+					s, _ := ast.Unparen(e).(*ast.SelectorExpr)
+					return s
+				}
+				a, b := sel(call.Args[0]), sel(call.Args[1])
+				if a != nil && b != nil && strings.TrimPrefix(a.Sel.Name, "Get") == "Name" && strings.TrimPrefix(b.Sel.Name, "Get") == "Key" && sameExpr(p.Info(), a.X, b.X) {
 					ok = true
 				}
 			}
